@@ -12,6 +12,8 @@ import (
 	"sort"
 	"strings"
 	"sync"
+	"syscall"
+	"time"
 
 	"bounded/report"
 
@@ -59,16 +61,13 @@ type Violation struct {
 // CheckFn inspects one (program, environment) evaluation.
 type CheckFn func(w *Worker, cr *CaseResult, ir *InstResult) *Violation
 
-type finding struct {
-	seq  int
-	size int
-	f    report.Failure
-}
 
 type Worker struct {
 	eng      *Engine
 	prop     string
-	findings map[string][]finding
+	findings map[string][]Finding
+	counters map[string]int
+	noteLines []string
 	distinct map[uint64]struct{}
 	evals    int
 	executed int
@@ -83,10 +82,11 @@ type Worker struct {
 	minCache     map[string]string
 	safeCache    map[string]*CaseResult // (group|src) -> nil if safe, else the evaluation showing an ill-typed value
 	blocked      int
+	valCache19   map[string]cached19
 }
 
 func NewWorker(prop string) *Worker {
-	return &Worker{eng: NewEngine(), prop: prop, findings: map[string][]finding{},
+	return &Worker{eng: NewEngine(), prop: prop, findings: map[string][]Finding{}, counters: map[string]int{},
 		distinct: map[uint64]struct{}{}, minCache: map[string]string{}, safeCache: map[string]*CaseResult{}}
 }
 
@@ -104,12 +104,12 @@ func (w *Worker) noteProgram(t *Term) {
 
 func (w *Worker) addFinding(seq, size int, f report.Failure) {
 	fs := w.findings[f.Key]
-	fs = append(fs, finding{seq, size, f})
+	fs = append(fs, Finding{seq, size, f})
 	sort.SliceStable(fs, func(i, j int) bool {
-		if fs[i].size != fs[j].size {
-			return fs[i].size < fs[j].size
+		if fs[i].Size != fs[j].Size {
+			return fs[i].Size < fs[j].Size
 		}
-		return fs[i].seq < fs[j].seq
+		return fs[i].Seq < fs[j].Seq
 	})
 	if len(fs) > 3 {
 		fs = fs[:3]
@@ -474,6 +474,32 @@ func (w *Worker) report(cs *Case, cr *CaseResult, ir *InstResult, v *Violation, 
 
 // ---------------------------------------------------------------- pool
 
+// Finding: one recorded violation (exported for the worker result files).
+type Finding struct {
+	Seq  int
+	Size int
+	F    report.Failure
+}
+
+// WorkerResult: what one worker process hands back to the coordinator.
+type WorkerResult struct {
+	Findings     map[string][]Finding
+	Distinct     []uint64
+	Evals        int
+	YaeRejects   int
+	RefRejects   int
+	ParseErrors  int
+	TypeMismatch int
+	Unspec       int
+	Blocked      int
+	RejectSample []string
+	Counters     map[string]int
+	NoteLines    []string
+	Meta         report.Report // contract / space / bound / rule / samples as the driver wrote them
+}
+
+var slowLog = os.Getenv("VERIF_SLOW") != ""
+
 type Pool struct {
 	Prop    string
 	Workers []*Worker
@@ -482,33 +508,91 @@ type Pool struct {
 	pending sync.WaitGroup
 	seq     int
 	batch   []*Case
+	// child-process mode
+	skip   map[int]bool
+	only   map[int]bool
+	status []byte
 }
 
-// NewPool starts n workers that apply handle to every case.
-func NewPool(prop string, n int, handle func(w *Worker, c *Case)) *Pool {
-	p := &Pool{Prop: prop, ch: make(chan []*Case, 4*n)}
+func seqSet(s string) map[int]bool {
+	m := map[int]bool{}
+	for _, f := range strings.Split(s, ",") {
+		var x int
+		if _, err := fmt.Sscanf(f, "%d", &x); err == nil {
+			m[x] = true
+		}
+	}
+	return m
+}
+
+const statusSlot = 1600
+
+// NewPool starts the worker goroutines that apply handle to every case.
+// VERIF_SKIP / VERIF_ONLY (set by the coordinator after a process death)
+// exclude / select cases by sequence number; VERIF_STATUS names the file in
+// which every worker goroutine records the program it is evaluating.
+func NewPool(prop string, handle func(w *Worker, c *Case)) *Pool {
+	n := nWorkers()
+	p := &Pool{Prop: prop}
+	p.skip = seqSet(os.Getenv("VERIF_SKIP"))
+	p.only = seqSet(os.Getenv("VERIF_ONLY"))
+	if len(p.only) > 0 {
+		n = 1
+	}
+	p.ch = make(chan []*Case, 4*n)
+	if sf := os.Getenv("VERIF_STATUS"); sf != "" {
+		// a shared file mapping: no system call per case, and the content
+		// survives the death of this process
+		if f, err := os.OpenFile(sf, os.O_CREATE|os.O_RDWR, 0o644); err == nil {
+			if f.Truncate(int64(n*statusSlot)) == nil {
+				if m, err := syscall.Mmap(int(f.Fd()), 0, n*statusSlot, syscall.PROT_READ|syscall.PROT_WRITE, syscall.MAP_SHARED); err == nil {
+					p.status = m
+				}
+			}
+			f.Close()
+		}
+	}
 	for i := 0; i < n; i++ {
 		w := NewWorker(prop)
 		p.Workers = append(p.Workers, w)
 		p.wg.Add(1)
-		go func() {
+		go func(slot int) {
 			defer p.wg.Done()
 			debug.SetPanicOnFault(true)
 			for batch := range p.ch {
 				for _, c := range batch {
+					if p.status != nil {
+						// which program is being evaluated, should the process die
+						rec := fmt.Sprintf("%-12d%s", c.Seq, trunc(c.T.Render(MPlain), statusSlot-40))
+						sl := p.status[slot*statusSlot : (slot+1)*statusSlot]
+						k := copy(sl, rec)
+						for ; k < len(sl) && sl[k] != 0; k++ {
+							sl[k] = 0
+						}
+					}
+					t0 := time.Now()
 					handle(w, c)
+					if d := time.Since(t0); slowLog && d > 100*time.Millisecond {
+						fmt.Fprintf(os.Stderr, "slow case %v [%s] %s\n", d, c.Family, trunc(c.T.Render(MPlain), 100))
+					}
 				}
 				p.pending.Done()
 			}
-		}()
+			if p.status != nil {
+				copy(p.status[slot*statusSlot:], "0           ")
+			}
+		}(i)
 	}
 	return p
 }
 
 func (p *Pool) Submit(t *Term, family string, groups []*EnvGroup) {
 	p.seq++
+	if p.skip[p.seq] || (len(p.only) > 0 && !p.only[p.seq]) {
+		return
+	}
 	p.batch = append(p.batch, &Case{Seq: p.seq, T: t, Family: family, Groups: groups})
-	if len(p.batch) >= 64 {
+	if len(p.batch) >= 32 {
 		p.Flush()
 	}
 }
@@ -533,25 +617,72 @@ func (p *Pool) Close() {
 	p.wg.Wait()
 }
 
-// Merge folds the workers' results into the report, deterministically.
-func (p *Pool) Merge(r *report.Report) {
-	all := map[string][]finding{}
+// Result collects the raw results of the pool's workers.
+func (p *Pool) Result() *WorkerResult {
+	res := &WorkerResult{Findings: map[string][]Finding{}, Counters: map[string]int{}}
 	distinct := map[uint64]struct{}{}
-	var yr, rr, pe, tm int
-	var samples []string
 	for _, w := range p.Workers {
 		for k, fs := range w.findings {
-			all[k] = append(all[k], fs...)
+			res.Findings[k] = append(res.Findings[k], fs...)
 		}
 		for h := range w.distinct {
 			distinct[h] = struct{}{}
 		}
-		r.Evaluations += w.evals
-		yr += w.yaeRejects
-		rr += w.refRejects
-		pe += w.parseErrors
-		tm += w.typeMismatch
-		samples = append(samples, w.rejectSample...)
+		res.Evals += w.evals
+		res.YaeRejects += w.yaeRejects
+		res.RefRejects += w.refRejects
+		res.ParseErrors += w.parseErrors
+		res.TypeMismatch += w.typeMismatch
+		res.Unspec += w.unspec
+		res.Blocked += w.blocked
+		res.RejectSample = append(res.RejectSample, w.rejectSample...)
+		for k, v := range w.counters {
+			res.Counters[k] += v
+		}
+		res.NoteLines = append(res.NoteLines, w.noteLines...)
+	}
+	for h := range distinct {
+		res.Distinct = append(res.Distinct, h)
+	}
+	return res
+}
+
+// lastPool: the pool of the driver that ran in this process (its raw result
+// is what a worker process writes out).
+var lastPool *Pool
+
+// Merge folds the workers' results into the report, deterministically.
+func (p *Pool) Merge(r *report.Report) {
+	lastPool = p
+	MergeResults(r, []*WorkerResult{p.Result()})
+}
+
+// MergeResults folds raw results into the report, deterministically.
+func MergeResults(r *report.Report, rs []*WorkerResult) {
+	all := map[string][]Finding{}
+	distinct := map[uint64]struct{}{}
+	var yr, rr, pe, tm, un, bl int
+	var samples, lines []string
+	counters := map[string]int{}
+	for _, w := range rs {
+		for k, fs := range w.Findings {
+			all[k] = append(all[k], fs...)
+		}
+		for _, h := range w.Distinct {
+			distinct[h] = struct{}{}
+		}
+		r.Evaluations += w.Evals
+		yr += w.YaeRejects
+		rr += w.RefRejects
+		pe += w.ParseErrors
+		tm += w.TypeMismatch
+		un += w.Unspec
+		bl += w.Blocked
+		samples = append(samples, w.RejectSample...)
+		lines = append(lines, w.NoteLines...)
+		for k, v := range w.Counters {
+			counters[k] += v
+		}
 	}
 	r.DistinctNontrivial += len(distinct)
 	keys := make([]string, 0, len(all))
@@ -562,16 +693,16 @@ func (p *Pool) Merge(r *report.Report) {
 	for _, k := range keys {
 		fs := all[k]
 		sort.SliceStable(fs, func(i, j int) bool {
-			if fs[i].size != fs[j].size {
-				return fs[i].size < fs[j].size
+			if fs[i].Size != fs[j].Size {
+				return fs[i].Size < fs[j].Size
 			}
-			return fs[i].seq < fs[j].seq
+			return fs[i].Seq < fs[j].Seq
 		})
 		for i, f := range fs {
 			if i >= 3 {
 				break
 			}
-			r.AddFailure(f.f)
+			r.AddFailure(f.F)
 		}
 	}
 	if yr+rr+pe+tm > 0 {
@@ -581,6 +712,29 @@ func (p *Pool) Merge(r *report.Report) {
 		}
 		r.Notes = append(r.Notes, fmt.Sprintf("outside the quantifier of this property (not counted, not failures): %d generated programs rejected by yae although the reference typing accepts them (type-checker properties C05/F19), %d accepted by yae but not by the reference checker, %d with a different inferred type, %d not parsed; e.g. %s",
 			yr, rr, tm, pe, strings.Join(samples, " ;; ")))
+	}
+	if un+bl > 0 {
+		r.Notes = append(r.Notes, fmt.Sprintf("%d evaluations in which the reference semantics leaves the result open (NaN / out-of-int64 conversions, numbers closer than EPS in key or set position, non-absolute time texts): only the clauses that do not need the value were checked there; %d (program, environment group) pairs were not run as a whole because a sub-program yields an ill-typed value (memory-unsafe to consume): the contract was checked on that sub-program instead", un, bl))
+	}
+	if len(counters) > 0 {
+		ks := make([]string, 0, len(counters))
+		for k := range counters {
+			ks = append(ks, k)
+		}
+		sort.Strings(ks)
+		line := "counters:"
+		for _, k := range ks {
+			line += fmt.Sprintf(" %s=%d", k, counters[k])
+		}
+		r.Notes = append(r.Notes, line)
+	}
+	sort.Strings(lines)
+	seen := map[string]bool{}
+	for _, l := range lines {
+		if !seen[l] && len(seen) < 6 {
+			seen[l] = true
+			r.Notes = append(r.Notes, l)
+		}
 	}
 }
 
